@@ -44,6 +44,11 @@ def main() -> int:
         except AnalysisError as e:
             rc = 2
             buf.write(f"ANALYSIS-ERROR {e}\n")
+            from sa.report import load_known
+            kk = {k["key"] for k in load_known().get("findings", []) if k.get("property") == prop}
+            if any(f.key not in kk for f in check.findings):
+                with contextlib.redirect_stdout(buf):
+                    rc = check.finish()
         except Exception:
             rc = 2
             buf.write("ANALYSIS-ERROR internal: " + traceback.format_exc()[-400:] + "\n")
